@@ -130,6 +130,9 @@ mod types {
 		// variants with token-equal field types in different representations
 		pub enum Amount { Exact { v: u32 }, Packed { #[codec(compact)] v: u32 }, As { #[codec(encoded_as = "Compact<u32>")] v: u32 } }
 		pub enum Balance { Raw { free: u64, fee: u8 }, Stored { #[codec(encoded_as = "Compact<u64>")] free: u64, #[codec(compact)] fee: u8 } }
+		// hand-written bound list next to fields with their own representation
+		#[cfg_attr(feature = "max-encoded-len", codec(mel_bound(T: MaxEncodedLen)))]
+		pub struct MelBound<T> { #[codec(compact)] pub amount: u128, pub memo: T, #[codec(encoded_as = "Compact<u16>")] pub fee: u16 }
 		pub enum Simple { A, B, C }
 		pub enum Indexed { #[codec(index = 15)] A, #[codec(skip)] B, C = 3, D, #[codec(index = 255)] Z, #[codec(index = 0)] Zero }
 		#[repr(u8)]
@@ -212,6 +215,7 @@ mod types {
 	model_type!(struct MarkerPair { 0: Marker = plain, 1: Marker = plain });
 	model_type!(enum Amount { Exact = [0] { v: u32 = plain }, Packed = [1] { v: u32 = compact }, As = [2] { v: u32 = as_(Compact<u32>) } });
 	model_type!(enum Balance { Raw = [0] { free: u64 = plain, fee: u8 = plain }, Stored = [1] { free: u64 = as_(Compact<u64>), fee: u8 = compact } });
+	model_type!(struct MelBound<T> { amount: u128 = compact, memo: T = plain, fee: u16 = as_(Compact<u16>) });
 	model_type!(enum Simple { A = [0] {}, B = [1] {}, C = [2] {} });
 	model_type!(enum Indexed { A = [15] {}, B = skip {}, C = [3] {}, D = [2] {}, Z = [255] {}, Zero = [0] {} });
 	model_type!(enum Discr { A = [1] {}, B = [5] {}, C = [200] {} });
